@@ -121,6 +121,29 @@ func checkC13() *checkDef {
 	}
 }
 
+// seqHistories: the cache/seq operation histories at a given depth (shared by C12, which owns the
+// accounting oracle, and by C01 / C14, whose keys the same harness can emit: a wrong read, a
+// history that does not run to completion).
+func seqHistories(depth int) []seq {
+	var seqs []seq
+	for _, be := range []string{"memory", "file"} {
+		seqs = append(seqs, seq{Name: "histories/" + be, cp: cp{Backend: be, Shards: 2, Limit: 10, Interval: 1000}, Alphabet: seqAlphabet, Depth: depth, Reopen: be == "file"})
+	}
+	return seqs
+}
+
+// lruPopulations: the cache/lru enumeration (owned by C13; C14 runs it too because a population
+// whose trigger never completes is reported under C14).
+func lruPopulations(maxN int) []lru {
+	shards := []int{1, 2, 32}
+	var ls []lru
+	for _, be := range []string{"memory", "file"} {
+		ls = append(ls, lru{Name: "evict/" + be, Backend: be, Shards: shards, Limits: []int64{1000, 2000}, Sizes: []int64{100, 300, 600}, MaxN: maxN, Triggers: []string{"store", "store-colliding", "tick"}, Mode: "evict"})
+		ls = append(ls, lru{Name: "cleanup/" + be, Backend: be, Shards: shards, Limits: []int64{1 << 40}, Sizes: []int64{100, 300}, MaxN: maxN, Triggers: []string{"tick"}, Mode: "cleanup"})
+	}
+	return ls
+}
+
 func allChecks() []*checkDef {
 	return []*checkDef{checkC01(), checkC02(), checkC03(), checkC04(), checkC05(), checkC06(), checkC07(), checkC08(), checkC09(), checkC10(), checkC11(), checkC12(), checkC13(), checkC14(), checkC15(), checkC16(), checkC17(), checkC18(), checkC19(), checkC20()}
 }
@@ -438,6 +461,7 @@ func checkC16() *checkDef {
 				{Pkg: "./webserver/api", Scenario: "api/login", Params: map[string]any{}, Workers: 1},
 				// every JSON value shape at every position of an update document
 				{Pkg: "./config", Scenario: "config/doc-shapes", Params: map[string]any{}, Workers: 1},
+				{Pkg: "./proxy", Scenario: "proxy/fresh", Params: map[string]any{"backend": "memory"}},
 			}
 		},
 	}
@@ -509,6 +533,7 @@ func checkC20() *checkDef {
 				{Pkg: "./webserver/api", Scenario: "api/routes", Params: map[string]any{}, Workers: 1},
 				{Pkg: "./webserver/api", Scenario: "api/login", Params: map[string]any{}, Workers: 1},
 				{Pkg: "./webserver/api", Scenario: "api/sessions", Params: map[string]any{"depth": d}},
+				{Pkg: "./utils/phc", Scenario: "phc/enum", Params: map[string]any{}, Workers: 8},
 				{Pkg: "./webserver/middleware", Scenario: "middleware/harden", Params: map[string]any{}, Workers: 1},
 			}
 		},
@@ -698,6 +723,8 @@ func checkC01() *checkDef {
 				// every 200 delivered must carry the content type and length the origin sent with that body
 				{Pkg: "./proxy", Scenario: "proxy/reval", Params: map[string]any{"backend": "memory", "depth": 3}},
 				{Pkg: "./proxy", Scenario: "proxy/reval", Params: map[string]any{"backend": "file", "depth": 3}},
+				// sequential operation histories: the handle returned by every store and read is read back
+				{Pkg: "./cache", Scenario: "cache/seq", Params: seqHistories(4)},
 			}
 		},
 	}
@@ -833,6 +860,9 @@ func checkC14() *checkDef {
 				{Pkg: "./proxy", Scenario: "proxy/sched", Params: pp, K: k, E: 1, F: 1, Horizon: 8000},
 				// every history (depth 3) of run-time changes of size limit, memory budget and cleanup interval followed by a probe must run to completion
 				{Pkg: "./cache", Scenario: "cache/settings", Params: map[string]any{"depth": 3}},
+				// sequential drivers whose cases must all run to completion as well
+				{Pkg: "./cache", Scenario: "cache/seq", Params: seqHistories(4)},
+				{Pkg: "./cache", Scenario: "cache/lru", Params: lruPopulations(3)},
 			}
 		},
 	}
